@@ -50,7 +50,7 @@ struct deliv_rec { int active, sidx; uint64_t chg0; int nwoken; short woken[MAXI
 static __thread struct deliv_rec tl_d;
 
 static struct {
-	uint64_t cases, deliveries, deliveries_checked, ambiguous, wakes, entries, handovers_expected, handovers_seen, dfl_checks, fork_raises,
+	uint64_t cases, deliveries, deliveries_checked, ambiguous, wakes, entries, handovers_expected, handovers_seen, dfl_checks, fork_raises, fork_raises_from_loop,
 		 thread_directed, process_directed, during_handler, this_thread_first, exclusive_stops, obligations, discharged, nonloop_receiver;
 } S;
 static _Atomic long c_deliv, c_checked, c_amb, c_wakes, c_entries, c_ho_exp, c_ho_seen, c_dfl, c_td, c_pd, c_during, c_ttf, c_excl, c_nonloop;
@@ -333,6 +333,8 @@ static int send_signal(int si, int target_loop, int to_main)
 	return 1;
 }
 
+static _Atomic int loop_forks;	/* per case */
+
 static void sig_cb(void *cookie)
 {
 	int i = (int)(uintptr_t)cookie - 1, k;
@@ -385,6 +387,31 @@ static void sig_cb(void *cookie)
 	} else if (k < 70) {
 		struct timespec ts = { 0, 1000 * (1 + (long)rng_n(&lt->rng, 300)) };
 		nanosleep(&ts, NULL);	/* a long handler: deliveries pile up meanwhile */
+	} else if (k < 75 && atomic_fetch_add(&loop_forks, 1) < 2) {
+		/* this loop thread forks (the child inherits its this-thread interests and every event descriptor) and the child
+		 * receives the signals: nothing may happen in the parent */
+		pid_t p;
+		int sgi;
+		vt_ext_add(1);
+		p = fork();
+		if (p == 0) {
+			for (sgi = 0; sgi < NSIG_T; sgi++) {
+				struct sigaction old;
+				__real_sigaction(signums[sgi], NULL, &old);
+				if (old.sa_handler != SIG_DFL && old.sa_handler != SIG_IGN)
+					raise(signums[sgi]);
+			}
+			_exit(0);
+		}
+		if (p > 0) {
+			int st;
+			vt_block_begin();
+			while (__real_wait4(p, &st, 0, NULL) < 0 && errno == EINTR)
+				;
+			vt_block_end();
+			S.fork_raises_from_loop++;
+		}
+		vt_ext_add(-1);
 	}
 	atomic_store(&handler_running[i], 0);
 }
@@ -492,6 +519,7 @@ static void run_case(long id, uint64_t seed)
 	memset((void *)fd2slot_r, 0, sizeof(fd2slot_r));
 	for (i = 0; i < NSIG_T; i++) { count[i] = 0; chg[i] = 0; deliv[i] = 0; deliv_started[i] = 0; }
 	atomic_store(&ilv_hash, 0x33);
+	atomic_store(&loop_forks, 0);
 
 	nl = 1 + rng_n(&r, 4);
 	ns = 1 + rng_n(&r, 3);
@@ -562,10 +590,10 @@ int main(int argc, char **argv)
 		run_case(i, seed);
 	mon_printf("STAT method=%s cases=%llu deliveries=%ld fanout_checked=%ld ambiguous_skipped=%ld received_by_non_loop_thread=%ld thread_directed=%ld process_directed=%ld "
 		   "this_thread_set_applied=%ld exclusive_sets=%ld wakes=%ld wakes_during_own_handler=%ld handler_runs=%ld handovers_expected=%ld handovers_seen=%ld "
-		   "default_disposition_checks=%ld fork_raises=%llu obligations=%llu discharged=%llu shim_quiescences=%llu violations=%d\n",
+		   "default_disposition_checks=%ld fork_raises=%llu fork_raises_from_loop_thread=%llu obligations=%llu discharged=%llu shim_quiescences=%llu violations=%d\n",
 		   g_method, (unsigned long long)S.cases, (long)c_deliv, (long)c_checked, (long)c_amb, (long)c_nonloop, (long)c_td, (long)c_pd,
 		   (long)c_ttf, (long)c_excl, (long)c_wakes, (long)c_during, (long)c_entries, (long)c_ho_exp, (long)c_ho_seen, (long)c_dfl,
-		   (unsigned long long)S.fork_raises, (unsigned long long)S.obligations, (unsigned long long)S.discharged,
+		   (unsigned long long)S.fork_raises, (unsigned long long)S.fork_raises_from_loop, (unsigned long long)S.obligations, (unsigned long long)S.discharged,
 		   (unsigned long long)vt_stats.quiescences, mon_viol_total);
 	mon_printf("DONE\n");
 	return 0;
